@@ -3,7 +3,8 @@
 Proof: Props.C14 (label_schedule_independent and the bookkeeping invariant, about Model.Catchpoint).
 Tie C (zz_verif_c14_test.go): ONE history of real blocks replayed on 4–6 real ledgers with different flush schedules (the
 harness owns the schedule through a gate tracker; commit ranges that span a first-stage round), MaxAcctLookback,
-CatchpointTracking, trie page / cache configurations, restarts and crash images; a reference ledger that flushes every round
+CatchpointTracking, trie page / cache configurations, restarts, crash images, and a period WITHOUT catchpoint tracking (real restart with
+CatchpointTracking = -1, commits, restart with tracking: initializeHashes must rebuild the trie); a reference ledger that flushes every round
 supplies the history (per-round row changes, totals, verification hashes, block digests).
   * correspondence: the Lean model runs the SAME event list (blocks / commits / crashes / restarts) over that history and must
     create exactly the labels the real ledger created — same rounds (including the ones a sparse schedule skips), byte-identical
@@ -133,7 +134,7 @@ def run(ctx, replay_ops=None):
                     ctx.violation(what, rp, found_input=True)
                 break
         # completeness on compatible schedules (implementation only): every multiple of the interval in (lookback, last commit target] has a label
-        if f[1] != "sparse" and not clash and case:
+        if f[1] not in ("sparse", "toggle") and not clash and case:
             c = kvs(case)
             I, L = int(c["I"]), int(c["L"])
             commits = [int(t[1:]) for t in cfg.get("ev", "").split(",") if t[:1] in ("c", "X") and t[1:].isdigit()]
